@@ -37,7 +37,7 @@ func cmdRun(args []string) {
 	tier := fs.String("tier", "quick", "quick|thorough")
 	jobs := fs.Int("j", 16, "workers")
 	filter := fs.String("only", "", "substring filter on instance names")
-	solver := fs.String("solver", "z3", "solver binary")
+	solver := fs.String("solver", defaultSolver(), "solver binary")
 	noReplay := fs.Bool("noreplay", false, "skip native replay (debug)")
 	noValidate := fs.Bool("novalidate", false, "skip translator validation (debug)")
 	budget := fs.Duration("budget", 0, "time box for the instance matrix (0 = none)")
@@ -381,7 +381,7 @@ func buildEvidence(pd *propDef, tier string, seed int64, results []InstResult, k
 	ev.cov["intrinsics_hit"] = il
 	ev.cov["bounds"] = pd.Bounds
 	ev.cov["exhaustive"] = false
-	ev.cov["solver"] = "z3 4.8.12 (-in, push/pop, no set-logic)"
+	ev.cov["solver"] = defaultSolver() + " (-in, push/pop, no set-logic; z3-new = z3 5.1.0, z3 = 4.8.12)"
 	return ev
 }
 
@@ -646,7 +646,7 @@ func validate(pd *propDef, results []InstResult, n int, seed int64) (int, []stri
 		if err != nil {
 			return 0, nil, err
 		}
-		sol := NewSolver("z3", 10000)
+		sol := NewSolver(defaultSolver(), 10000)
 		for _, i := range idxs {
 			v := vecs[i]
 			r := runInstance(ld, sol, v.inst, runOpts{concrete: v.model, kfOpen: map[string]bool{}})
